@@ -61,6 +61,7 @@ type LowerCfg struct {
 	CmdQ       int    `json:"cmd_q,omitempty"`
 	FreqHz     uint64 `json:"freq_hz"`
 	PortBuf    int    `json:"port_buf"`
+	TopOutBuf  int    `json:"top_out_buf,omitempty"` // >0: outgoing capacity of the Top port differs from the incoming one
 	// stub (adversarial lower memory) knobs
 	StubMinDelay int    `json:"stub_min_delay,omitempty"`
 	StubMaxDelay int    `json:"stub_max_delay,omitempty"`
@@ -273,7 +274,18 @@ func BuildOn(reg modeling.Registrar, cfg *Config, w *World) *Asm {
 			comp = c
 		}
 
-		lowerTops = append(lowerTops, a.port(comp, "Top", cfg.Lower.PortBuf))
+		if cfg.Lower.TopOutBuf > 0 {
+			// a Top port that takes many requests and lets few responses out at a
+			// time (response back-pressure inside the controller)
+			p := messaging.NewPort(comp, cfg.Lower.PortBuf, cfg.Lower.TopOutBuf, comp.Name()+".Top")
+			a.Reg.RegisterPort(p)
+			comp.AssignPort("Top", p)
+			a.Ports[p.Name()] = p
+			lowerTops = append(lowerTops, p)
+		} else {
+			lowerTops = append(lowerTops, a.port(comp, "Top", cfg.Lower.PortBuf))
+		}
+
 		a.Ctrl[name] = a.port(comp, "Control", 4)
 	}
 
